@@ -82,6 +82,11 @@ pub fn check_unit(rep: &mut Rep, e_c: i128, s: TimeScale) {
         return;
     }
     for u in UNITS {
+        // also from the reading one unit before / after a whole century (k chosen by the input): the step lands exactly on
+        // the boundary where the (centuries, nanoseconds) form carries
+        let k = (e_c.rem_euclid(6) - 2) * NPC;
+        let cu0 = unit_ns(u);
+        for e_c in [e_c, k - cu0, k + cu0] {
         if !rep.tick() {
             continue;
         }
@@ -97,11 +102,12 @@ pub fn check_unit(rep: &mut Rep, e_c: i128, s: TimeScale) {
             Err(p) => rep.fail(&format!("unit/panic/{}", p.class()), None, || format!("Epoch({e_c},{:?}) +/- {:?} panicked {}", s, u, p.msg)),
             Ok((a, b, c, f)) => {
                 for (name, g, w) in [("add_unit", a, e_c + cu), ("sub_unit", b, e_c - cu), ("add_assign_unit", c, e_c + cu), ("sub_assign_unit", f, e_c - cu)] {
-                    if g.time_scale != s || count_d(g.duration) != w {
-                        rep.fail(&format!("{name}/value"), None, || format!("Epoch({e_c},{:?}) {name} {:?} = ({}, {:?}) want {}", s, u, count_d(g.duration), g.time_scale, w));
+                    if g.time_scale != s || count_d(g.duration) != w || !is_canonical(g.duration.to_parts()) {
+                        rep.fail(&format!("{name}/value"), None, || format!("Epoch({e_c},{:?}) {name} {:?} = ({}, {:?}) want {} in canonical form", s, u, fmt_parts(g.duration.to_parts()), g.time_scale, w));
                     }
                 }
             }
+        }
         }
     }
 }
@@ -130,7 +136,7 @@ pub fn check_f64(rep: &mut Rep, e_c: i128, s: TimeScale, secs: i64) {
         Err(p) => rep.fail(&format!("addf64/panic/{}", p.class()), None, || format!("Epoch({e_c},{:?}) + {x} panicked {}", s, p.msg)),
         Ok(g) => {
             let w = e_c + secs as i128 * NS_S;
-            if g.time_scale != s || count_d(g.duration) != w {
+            if g.time_scale != s || count_d(g.duration) != w || !is_canonical(g.duration.to_parts()) {
                 rep.fail("addf64/value", None, || format!("Epoch({e_c},{:?}) + {x} s = ({}, {:?}) want {}", s, count_d(g.duration), g.time_scale, w));
             }
         }
